@@ -61,6 +61,9 @@ func (s *sys) mkRec(r *rand.Rand, k, kind string, stale bool, bigVals bool) agg.
 		rec.Sp, rec.Sns, rec.Ftype = "pod-a", "ns-a", 3
 	case "src":
 		rec.Sp, rec.Sns = "pod-a", "ns-a"
+		if !s.global && r.Intn(5) == 0 {
+			rec.Sp = "pod-a-replacement" // the same node reports again, its Pod has another name by now
+		}
 		if !s.global {
 			rec.Egress = r.Intn(2) // none / allow
 			if r.Intn(4) == 0 {
@@ -69,6 +72,9 @@ func (s *sys) mkRec(r *rand.Rand, k, kind string, stale bool, bigVals bool) agg.
 		}
 	case "dst":
 		rec.Dp, rec.Dns = "pod-b", "ns-b"
+		if !s.global && r.Intn(5) == 0 {
+			rec.Dp = "pod-b-replacement"
+		}
 		if !s.global {
 			rec.Ingress = r.Intn(2)
 			if r.Intn(4) == 0 {
@@ -109,6 +115,10 @@ func (s *sys) mkRec(r *rand.Rand, k, kind string, stale bool, bigVals bool) agg.
 		prevEnd, prevVals = ls.end, ls.vals
 	}
 	rec.End = prevEnd + 1 + r.Intn(4)
+	if !s.global && ls != nil && r.Intn(5) == 0 {
+		// the exporter re-states when the flow started: later than this node's previous end time is allowed (end > start)
+		rec.Start = prevEnd + r.Intn(rec.End-prevEnd)
+	}
 	stale = stale && ls != nil
 	if stale {
 		rec.End = prevEnd - r.Intn(2)
@@ -349,6 +359,9 @@ func main() {
 		n /= 3
 	}
 	keys := []string{"k1", "k2", "k3", "k4", "k5", "k6"}
+	if *mode == "c05" {
+		keys = []string{"k1", "k9", "k10", "k4", "k11", "k6"} // incl. 5-tuples of port-less protocols that differ in the port fields only
+	}
 	kinds := []string{"intra", "toext", "src", "dst", "deny", "reject"}
 	for i := 0; i < n; i++ {
 		s := newSys(w, "rnd-"+*mode)
